@@ -52,6 +52,21 @@ Print Assumptions c11_check_decides.
 (* model-free schedulers: NO exception for ambient randomness / clock / process entropy / dynamic code *)
 Definition allow_none : list (string * eff) := [].
 
+(* check_and_merge_defaults(options, mandatory, default_options, ..) is handed the module-level _DEFAULT_OPTIONS of
+   the scheduler module; its only write into an object derived from its parameters is `result_dict[kd] = vd` for
+   keys kd MISSING from result_dict, where result_dict is either the dict passed by the caller (not module-level)
+   or the default's own nested dict (then every key kd is present: no write).  The entry names the callee, the
+   parameter and the mutating expression, so a different mutation of the defaults is not covered. *)
+Definition allow_default_imputation : list (string * eff) := [
+  ("syne_tune.optimizer.schedulers.fifo.FIFOScheduler.__init__/1 check_and_merge_defaults(default_options): result_dict[...] = ...", ModuleGlobalWrite);
+  ("syne_tune.optimizer.schedulers.hyperband.HyperbandScheduler.__init__/1 check_and_merge_defaults(default_options): result_dict[...] = ...", ModuleGlobalWrite);
+  ("syne_tune.optimizer.schedulers.pbt.PopulationBasedTraining.__init__/1 check_and_merge_defaults(default_options): result_dict[...] = ...", ModuleGlobalWrite);
+  ("syne_tune.optimizer.schedulers.synchronous.dehb.DifferentialEvolutionHyperbandScheduler._create_internal/1 check_and_merge_defaults(default_options): result_dict[...] = ...", ModuleGlobalWrite);
+  ("syne_tune.optimizer.schedulers.synchronous.hyperband.SynchronousHyperbandScheduler._create_internal/1 check_and_merge_defaults(default_options): result_dict[...] = ...", ModuleGlobalWrite);
+  ("syne_tune.optimizer.schedulers.synchronous.hyperband_impl.GeometricDifferentialEvolutionHyperbandScheduler.__init__/1 check_and_merge_defaults(default_options): result_dict[...] = ...", ModuleGlobalWrite);
+  ("syne_tune.optimizer.schedulers.synchronous.hyperband_impl.SynchronousGeometricHyperbandScheduler.__init__/1 check_and_merge_defaults(default_options): result_dict[...] = ...", ModuleGlobalWrite)
+].
+
 (* GP-based searchers *)
 Definition allow_ambient_gp : list (string * eff) := [
   (* profiling only: cumulative_get_config_time, never read by a decision *)
@@ -110,7 +125,7 @@ Definition allow_shared_gp : list (string * eff) := [
   ("syne_tune.optimizer.schedulers.searchers.bayesopt.gpautograd.gluon._BlockScope.__enter__/1", ClassAttrWrite);
   ("syne_tune.optimizer.schedulers.searchers.bayesopt.gpautograd.gluon._BlockScope.__exit__/1", ClassAttrWrite);
   ("syne_tune.optimizer.schedulers.searchers.bayesopt.gpautograd.gluon._BlockScope.create/2", ClassAttrWrite)
-].
+] ++ allow_default_imputation.
 
 (* ==== model-free schedulers / searchers ================================================================ *)
 (* FIFOScheduler + RandomSearcher *)
@@ -123,7 +138,7 @@ Theorem c11_no_hash_order_fifo_random :
 Proof. by_check. Qed.
 Print Assumptions c11_no_hash_order_fifo_random.
 Theorem c11_instances_disjoint_fifo_random :
-  NoReachableEffect edges effs off_fifo_random roots_fifo_random shared_write allow_none.
+  NoReachableEffect edges effs off_fifo_random roots_fifo_random shared_write allow_default_imputation.
 Proof. by_check. Qed.
 Print Assumptions c11_instances_disjoint_fifo_random.
 
@@ -137,7 +152,7 @@ Theorem c11_no_hash_order_fifo_grid :
 Proof. by_check. Qed.
 Print Assumptions c11_no_hash_order_fifo_grid.
 Theorem c11_instances_disjoint_fifo_grid :
-  NoReachableEffect edges effs off_fifo_grid roots_fifo_grid shared_write allow_none.
+  NoReachableEffect edges effs off_fifo_grid roots_fifo_grid shared_write allow_default_imputation.
 Proof. by_check. Qed.
 Print Assumptions c11_instances_disjoint_fifo_grid.
 
@@ -151,7 +166,7 @@ Theorem c11_no_hash_order_fifo_rea :
 Proof. by_check. Qed.
 Print Assumptions c11_no_hash_order_fifo_rea.
 Theorem c11_instances_disjoint_fifo_rea :
-  NoReachableEffect edges effs off_fifo_rea roots_fifo_rea shared_write allow_none.
+  NoReachableEffect edges effs off_fifo_rea roots_fifo_rea shared_write allow_default_imputation.
 Proof. by_check. Qed.
 Print Assumptions c11_instances_disjoint_fifo_rea.
 
@@ -165,7 +180,7 @@ Theorem c11_no_hash_order_hyperband_random :
 Proof. by_check. Qed.
 Print Assumptions c11_no_hash_order_hyperband_random.
 Theorem c11_instances_disjoint_hyperband_random :
-  NoReachableEffect edges effs off_hyperband_random roots_hyperband_random shared_write allow_none.
+  NoReachableEffect edges effs off_hyperband_random roots_hyperband_random shared_write allow_default_imputation.
 Proof. by_check. Qed.
 Print Assumptions c11_instances_disjoint_hyperband_random.
 
@@ -179,7 +194,7 @@ Theorem c11_no_hash_order_synchb_random :
 Proof. by_check. Qed.
 Print Assumptions c11_no_hash_order_synchb_random.
 Theorem c11_instances_disjoint_synchb_random :
-  NoReachableEffect edges effs off_synchb_random roots_synchb_random shared_write allow_none.
+  NoReachableEffect edges effs off_synchb_random roots_synchb_random shared_write allow_default_imputation.
 Proof. by_check. Qed.
 Print Assumptions c11_instances_disjoint_synchb_random.
 
@@ -193,7 +208,7 @@ Theorem c11_no_hash_order_dehb :
 Proof. by_check. Qed.
 Print Assumptions c11_no_hash_order_dehb.
 Theorem c11_instances_disjoint_dehb :
-  NoReachableEffect edges effs off_dehb roots_dehb shared_write allow_none.
+  NoReachableEffect edges effs off_dehb roots_dehb shared_write allow_default_imputation.
 Proof. by_check. Qed.
 Print Assumptions c11_instances_disjoint_dehb.
 
@@ -207,7 +222,7 @@ Theorem c11_no_hash_order_pbt :
 Proof. by_check. Qed.
 Print Assumptions c11_no_hash_order_pbt.
 Theorem c11_instances_disjoint_pbt :
-  NoReachableEffect edges effs off_pbt roots_pbt shared_write allow_none.
+  NoReachableEffect edges effs off_pbt roots_pbt shared_write allow_default_imputation.
 Proof. by_check. Qed.
 Print Assumptions c11_instances_disjoint_pbt.
 
@@ -221,7 +236,7 @@ Theorem c11_no_hash_order_msr :
 Proof. by_check. Qed.
 Print Assumptions c11_no_hash_order_msr.
 Theorem c11_instances_disjoint_msr :
-  NoReachableEffect edges effs off_msr roots_msr shared_write allow_none.
+  NoReachableEffect edges effs off_msr roots_msr shared_write allow_default_imputation.
 Proof. by_check. Qed.
 Print Assumptions c11_instances_disjoint_msr.
 
@@ -350,5 +365,6 @@ Example c11_example_reach :
   reach_b edges off_fifo_random roots_fifo_random fn_Float_Uniform_sample_default = false /\
   check_b edges effs [] roots_fifo_random ambient allow_none = false /\
   check_b edges effs off_fifo_bayesopt roots_fifo_bayesopt ambient allow_none = false /\
-  check_b edges effs off_fifo_bayesopt roots_fifo_bayesopt shared_write allow_none = false.
+  check_b edges effs off_fifo_bayesopt roots_fifo_bayesopt shared_write allow_none = false /\
+  check_b edges effs off_hyperband_random roots_hyperband_random shared_write allow_none = false.
 Proof. vm_compute. repeat split; reflexivity. Qed.
